@@ -27,7 +27,9 @@ SPEC = dict(
                 "micro-programs (MIAP/MIRP/MDRP/ALIGNRP/ISECT/IP/SHP/DELTA/twilight/CALL/... at, above and below the cut-in thresholds) x every "
                 "glyph x ppem {unscaled, 4..320, 384, 512, 768, 1000, 2048, +-1 around each font's MPPEM comparison constants} (thorough: 2..512 + "
                 "larger) x {unhinted, interpreter x {mono, normal, light, lcd, vertical lcd}} through "
-                "fauntlet's own FreeType/skrifa instances and RegularizingPen, paths and advances compared exactly."),
+                "fauntlet's own FreeType/skrifa instances and RegularizingPen, paths and advances compared exactly; the hinted comparison is "
+                "repeated through REUSED skrifa HintingInstances (reconfigure after histories at sizes beyond every MPPEM threshold, other "
+                "targets, other fonts)."),
     level_note=("Trusted: Coq kernel; the two hand-written models in coq/C03/Model.v (agreement with the Rust code and with the exported "
                 "FreeType functions is checked on every run, not proved; the unexported FreeType functions are transcribed by hand from the "
                 "vendored C sources); FreeType's configuration (LP64, FT_MulFix_x86_64 inline) is detected at run time and recorded in the "
